@@ -93,6 +93,9 @@ def wild_register(cid, base, rng, seeded=True, family="mixed"):
         access = rng.choice(["rw", "rw", "rw", "r", "r", "w", "w", ""])
         if debug and access in ("w", ""):
             access = rng.choice(["rw", "r"])
+        if debug and shape in ("array", "listarray"):
+            # `debug` structs: readable scalar fields only (documented; C19)
+            shape = "range" if shape == "array" else "list"
         w = _pick_width(kind, rng, min(base, 128) if shape in ("range", "list") else max(1, min(base // 2, 64)))
         if w is None or w > base:
             continue
